@@ -61,6 +61,11 @@ structure St where
   writing : Bool             -- the send loop is parked inside `self._socket.write(payload)`
   deriving Repr, DecidableEq, Inhabited
 
+/-- a transport sink that has just been opened, nothing in flight, nothing queued, whose tag pool is
+    in state `p` (a connection of some age: `p` is what earlier traffic left behind) -/
+def St.initWith (p : Pool) : St := ⟨p, [], [], [], false⟩
+
+/-- a fresh transport sink: `TagPool.__init__` -/
 def St.init : St := ⟨Pool.init, [], [], [], false⟩
 
 /-! ### `_tag_map` as an association list -/
